@@ -5,7 +5,8 @@ attributes are spelled — path and argument form — at every position), theore
 single-violation mutants, under the four macro kinds, through the real front end in-process (FRONT: `ascent_impl`),
 compared with (a) the class the injected violation has by construction (python oracle) and (b) the model's verdict
 evaluated inside Coq; a sample through real rustc (generated crates) for "reported at the program" and for the
-classes that exist only at that level."""
+classes that exist only at that level — among them the whole family gen/c15_nest.py (include_source! nested in an ascent_source! body, at
+every item position of the body: decided by ascent_source! when the source is defined; model Check/NestedInclude.v)."""
 import copy
 import json
 import os
@@ -642,6 +643,10 @@ def tie(tier, seed, replay):
              "non-trivial = the front end did not answer ok; distinct = distinct (verdict class, program, macro kind). "
              "Family gen/c15_attrs.py: an attribute as data (1-3 path segments, leading ::, none / (..) / [..] / {..} / = value) at each of the 9 attribute "
              "positions, made-up names and each recognised name behind a prefix, the recognised names in every argument form. "
+             "Family gen/c15_nest.py (rustc level only: ascent_source! itself decides, no invocation of ascent_impl sees it): an include_source! nested in an "
+             "ascent_source! body at every item position — first, behind a relation / lattice / rule / fact / macro definition / another include / an attributed "
+             "relation, 0-3 macro definitions in front, last or followed — the source included first / in the middle / last in a generated host, under each of "
+             "the four macros; every such crate must fail with the dedicated message inside the source's text. "
              "rustc: generated crates compiled against /repo, error messages and line numbers of the diagnostics",
         samples=samples,
         distribution=dict(front_by_mutation=dist, front_cases=nfront, rustc_jobs=rdist,
